@@ -37,6 +37,10 @@ def filter_pool(r):
         {"comp": "VTODO", "prop": {"name": "STATUS", "test": {"text": "COMPLETED"}}},
         {"comp": "VEVENT", "prop": {"name": "CATEGORIES", "test": {"text": "HOME"}}},
         {"comp": "VEVENT", "prop": {"name": "UID", "test": {"text": "obj-1"}}},
+        {"comp": "VEVENT", "prop": {"name": "PRIORITY", "test": "present"}},
+        {"comp": "VEVENT", "prop": {"name": "SEQUENCE", "test": "absent"}},
+        {"comp": "VTODO", "prop": {"name": "PERCENT-COMPLETE", "test": "present"}},
+        {"comp": "VEVENT", "prop": {"name": "PRIORITY", "test": {"text": "0"}}},
     ]
     for w in r.sample(WINDOWS, 3):
         pool.append({"comp": "VEVENT", "time": list(w)})
